@@ -350,6 +350,7 @@ func (a *ownAnalysis) analyse(fi *FuncInfo) (events []ownEvent, retAlias map[*ty
 	// events
 	retAlias = map[*types.Var]bool{}
 	var loops []ast.Node
+	rebound := map[token.Pos]bool{} // arguments that the same assignment binds again from the call's result
 	var visit func(n ast.Node)
 	addEvent := func(e ast.Expr, move bool, what string, pos token.Pos) {
 		path, v, ok := accessPath(info, e)
@@ -414,6 +415,16 @@ func (a *ownAnalysis) analyse(fi *FuncInfo) (events []ownEvent, retAlias map[*ty
 							}
 						}
 					}
+					// x, err = f(x, …): the value is handed over and received back in the same statement, like x = append(x, …)
+					if c, ok := unparen(r).(*ast.CallExpr); ok && len(x.Rhs) == 1 {
+						for _, arg := range c.Args {
+							for _, l := range x.Lhs {
+								if exprString(unparen(l)) == exprString(unparen(arg)) {
+									rebound[arg.Pos()] = true
+								}
+							}
+						}
+					}
 					visit(r)
 				}
 				for _, l := range x.Lhs {
@@ -454,7 +465,7 @@ func (a *ownAnalysis) analyse(fi *FuncInfo) (events []ownEvent, retAlias map[*ty
 										}
 									}
 								} else {
-									addEvent(arg, true, "handed to "+callee.Name+", which "+w, arg.Pos())
+									addEvent(arg, !rebound[arg.Pos()], "handed to "+callee.Name+", which "+w, arg.Pos())
 								}
 							}
 						}
